@@ -1136,6 +1136,118 @@ func c08SelfTest(r *engine.Run) {
 
 // ---------------------------------------------------------------------------------------------
 
+type c08LongCase struct {
+	Kind string `json:"kind"`
+	From int    `json:"from"`
+	To   int    `json:"to"`
+}
+
+func c08LongUPID(n int, salt int) []byte {
+	b := make([]byte, n)
+	for i := range b {
+		b[i] = byte(i*7 + n + salt)
+	}
+	return b
+}
+
+func c08SegWithUPID(ev uint32, n int) ref.S35Desc {
+	return ref.S35Desc{IsSeg: true, Tag: ref.S35SegTag, Identifier: ref.S35CUEI,
+		Seg: ref.S35Seg{EventID: ev, Program: true, NotRestricted: true, UPIDType: 0x0F, UPID: c08LongUPID(n, int(ev)), TypeID: 0x30}}
+}
+
+// c08SectionOfLength returns a time_signal section whose section_length is exactly target (or ok=false).
+func c08SectionOfLength(target int) (ref.S35Section, bool) {
+	sec := ref.S35Canonical()
+	sec.CmdType, sec.Time, sec.PTSAdj = ref.S35CmdTime, ref.S35Time{Specified: true, PTS: 90000}, 1
+	slen := func() int { return len(ref.S35SectionBytes(&sec)) - 3 }
+	one := c08SegWithUPID(0, 0)
+	empty := len(ref.S35DescBytes(&one))
+	for k := uint32(1); ; k++ {
+		room := target - slen()
+		switch {
+		case room == 0:
+			return sec, true
+		case room < empty:
+			return sec, false
+		case room <= empty+238:
+			sec.Descs = append(sec.Descs, c08SegWithUPID(k, room-empty))
+			return sec, slen() == target
+		case room < 2*empty+200:
+			// leave enough for a final descriptor
+			sec.Descs = append(sec.Descs, c08SegWithUPID(k, room-2*empty-10))
+		default:
+			sec.Descs = append(sec.Descs, c08SegWithUPID(k, 200))
+		}
+	}
+}
+
+// c08InsertSweep calls f on a component-mode splice_insert with n components and every descriptor
+// loop length 0..300 that one or two segmentation descriptors can realise.
+func c08InsertSweep(n int, immediate bool, f func(sec *ref.S35Section)) {
+	for _, dur := range []bool{false, true} {
+		for loop := 0; loop <= 300; loop++ {
+			sec := ref.S35Canonical()
+			sec.CmdType = ref.S35CmdInsert
+			ins := ref.S35Insert{EventID: 0x01020304, Out: true, Immediate: immediate, HasDuration: dur, AutoReturn: dur, Duration: 2700000, UniqueProgramID: 7, AvailNum: 1, AvailsExpected: 2}
+			for i := 0; i < n; i++ {
+				c := ref.S35InsertComp{Tag: uint8(i)}
+				if !immediate {
+					c.Time = ref.S35Time{Specified: i%3 != 2, PTS: uint64(90000 + i)}
+					if !c.Time.Specified {
+						c.Time.PTS = 0
+					}
+				}
+				ins.Comps = append(ins.Comps, c)
+			}
+			sec.Insert = ins
+			one := c08SegWithUPID(0, 0)
+			empty := len(ref.S35DescBytes(&one))
+			switch {
+			case loop == 0:
+			case loop < empty:
+				continue
+			case loop <= empty+238:
+				sec.Descs = append(sec.Descs, c08SegWithUPID(1, loop-empty))
+			default:
+				rest := loop - (empty + 100)
+				if rest < empty || rest > empty+238 {
+					continue
+				}
+				sec.Descs = append(sec.Descs, c08SegWithUPID(1, 100), c08SegWithUPID(2, rest-empty))
+			}
+			f(&sec)
+		}
+	}
+}
+
+func c08CheckLong(c c08LongCase) engine.Result {
+	var res engine.Result
+	switch c.Kind {
+	case "section-length":
+		for t := c.From; t <= c.To; t++ {
+			sec, ok := c08SectionOfLength(t)
+			if !ok {
+				res.Event("target length not realisable")
+				continue
+			}
+			res.Nontrivial++
+			c08CheckDecode(&res, &sec, false)
+			if len(res.Fail) > 8 {
+				break
+			}
+		}
+	case "components-timed", "components-immediate":
+		c08InsertSweep(c.From, c.Kind == "components-immediate", func(sec *ref.S35Section) {
+			if len(res.Fail) > 8 {
+				return
+			}
+			res.Nontrivial++
+			c08CheckDecode(&res, sec, false)
+		})
+	}
+	return res
+}
+
 func c08Bound(r *engine.Run) int {
 	if r.Thorough() {
 		return 6
@@ -1197,6 +1309,45 @@ func init() {
 				Gen:   c08GenVectors,
 				Check: c08CheckVector,
 				Batch: 1,
+			},
+			&engine.Enum[c08LongCase]{
+				Name: "long-sections",
+				Rule: "sections of EVERY section_length in a window: time_signal + as many segmentation descriptors with 200-byte URN upids as needed + one whose upid length makes the section exactly the target length; targets 40..300, 900..1150, 2000..2100, 3040..3110 and 4050..4093 (thorough: every length 40..4093); case = block of 16 targets; decode and compare every getter as in decode-fields (crosses 255/256, 1023/1024 and every multiple of 1024 byte by byte)",
+				Gen: func(r *engine.Run, emit func(c08LongCase)) {
+					add := func(a, b int) {
+						for t := a; t <= b; t += 16 {
+							emit(c08LongCase{Kind: "section-length", From: t, To: min(t+15, b)})
+						}
+					}
+					if r.Thorough() {
+						add(40, 4093)
+					} else {
+						add(40, 300)
+						add(900, 1150)
+						add(2000, 2100)
+						add(3040, 3110)
+						add(4050, 4093)
+					}
+				},
+				Check: c08CheckLong, Batch: 1,
+			},
+			&engine.Enum[c08LongCase]{
+				Name: "insert-components-sweep",
+				Rule: "component-mode splice_insert with n components (timed: n in {0,1,2,3,5,41,42,43,60}, immediate: n in {0,1,3,245,254,255}; thorough: every n 0..70 timed, 0..255 immediate) with and without break_duration, followed by a descriptor loop whose length is swept byte by byte from 0 to 300 (one or two segmentation descriptors with the needed upid lengths), so that the number of bytes after component_count crosses 256 and splice_command_length crosses 255/256; decode and compare every getter",
+				Gen: func(r *engine.Run, emit func(c08LongCase)) {
+					timed := []int{0, 1, 2, 3, 5, 41, 42, 43, 60}
+					imm := []int{0, 1, 3, 245, 254, 255}
+					if r.Thorough() {
+						timed, imm = seq(0, 70), seq(0, 255)
+					}
+					for _, n := range timed {
+						emit(c08LongCase{Kind: "components-timed", From: n})
+					}
+					for _, n := range imm {
+						emit(c08LongCase{Kind: "components-immediate", From: n})
+					}
+				},
+				Check: c08CheckLong, Batch: 1,
 			},
 			&engine.Enum[c08RejCase]{
 				Name: "rejections",
